@@ -233,7 +233,7 @@ theorem html_start_tag_step : type_of% @Verif.Proofs.C09Html.html_start_tag_step
   @Verif.Proofs.C09Html.html_start_tag_step
 
 /-- **HTML raw-text elements** (script, style, iframe, textarea): the content the model writes does not end the element
-    early and the end tag ends it; guard: no `<!--` in a script (K-C09-HTML-8); contract `SubKeeps` on the sub-minifier -/
+    early and the end tag ends it; guard: no `<!--` in a script; NO hypothesis on the sub-minifier (html.go re-lexes its result, 1557146) -/
 theorem html_rawtext_end_stable_partial : type_of% @Verif.Proofs.C09Html.html_rawtext_end_stable_partial :=
   @Verif.Proofs.C09Html.html_rawtext_end_stable_partial
 
@@ -241,7 +241,7 @@ theorem html_rawtext_end_stable_partial : type_of% @Verif.Proofs.C09Html.html_ra
 theorem html_rawtext_end_stable_counterexample : type_of% @Verif.Proofs.C09Html.html_rawtext_end_stable_counterexample :=
   @Verif.Proofs.C09Html.html_rawtext_end_stable_counterexample
 
-/-- **HTML comments**: every comment written is one comment token; guard K-C09-HTML-1, contract K-C09-HTML-3 -/
+/-- **HTML comments**: every comment written is one comment token; guard K-C09-HTML-1; no contract on the recursive result (3c66722) -/
 theorem html_comment_closed_partial : type_of% @Verif.Proofs.C09Html.html_comment_closed_partial :=
   @Verif.Proofs.C09Html.html_comment_closed_partial
 
@@ -270,9 +270,18 @@ theorem html_output_retokenises_lexshape_counterexample :
 theorem html_text_lt_stays_escaped : type_of% @Verif.Proofs.C09Html.html_text_lt_stays_escaped :=
   @Verif.Proofs.C09Html.html_text_lt_stays_escaped
 
-/-- html.go's reference decoding creates a tag from the text `<&#98;>` (K-C09-HTML-10) -/
-theorem html_text_safe_not_preserved : type_of% @Verif.Proofs.C09Html.html_text_safe_not_preserved :=
-  @Verif.Proofs.C09Html.html_text_safe_not_preserved
+/-- **HTML text, positive** (after 6635adc; replaces the K-C09-HTML-10 counterexample): a text whose `<` open nothing is
+    written so that its `<` still open nothing -/
+theorem html_text_safe_preserved : type_of% @Verif.Proofs.C09Html.html_text_safe_preserved :=
+  @Verif.Proofs.C09Html.html_text_safe_preserved
+
+/-- the re-lex check of html.go (1557146) implies "no appropriate end tag" of the standard outside escaped sections -/
+theorem html_relex_no_end_tag : type_of% @Verif.Proofs.C09Html.html_relex_no_end_tag :=
+  @Verif.Proofs.C09Html.html_relex_no_end_tag
+
+/-- … and not inside them: `<!--<script-x></script> y` passes the re-lex, the standard ends the script at the first `</script>` -/
+theorem html_relex_script_counterexample : type_of% @Verif.Proofs.C09Html.html_relex_script_counterexample :=
+  @Verif.Proofs.C09Html.html_relex_script_counterexample
 
 /-- **HTML second pass**: on every token stream the model returns bytes or `ext missing` -/
 theorem html_second_pass_defined : type_of% @Verif.Proofs.C09Html.html_second_pass_defined :=
